@@ -368,6 +368,39 @@ def main(replay=None):
                 run.violation("after an accepted stop/abort the executor ran %d more instructions / ended with result %d state %d" % (after, res, st), rep)
         dist["concurrent: free-running executor"] = len(rl)
 
+    # every script asleep (far into the future) while the controller acts: the executor spins over sleepers only
+    sscripts = ["[] spawn { sleep 40 }; verif_mark__",
+                "[] spawn { sleep 40 }; [] spawn { sleep 50; x = 1 }; [] spawn { sleep 45 }; verif_mark__",
+                "[] spawn { sleep 30; [] spawn { sleep 30 } }; a = 1; verif_mark__"]
+    sl = [(sc, a) for sc in sscripts for a in ("t", "a", "ta", "st", "pa", "lt", "va")] if not replay else []
+    if replay:
+        r = json.load(open(replay))["replay"]
+        if r.get("kind") == "sleepers":
+            sl = [(r["script"], r["actions"])]
+    if sl:
+        rc, simpl, _ = V.run_lines_parallel([hctl, "sleepers"], ["%s\t%s" % (V.hx(sc), a) for sc, a in sl], timeout=900)
+        for (sc, acts), io in zip(sl, simpl):
+            evaluations += 1
+            nontrivial.add(("sleepers", sc, acts))
+            rep = {"kind": "sleepers", "script": sc, "actions": acts, "impl": io,
+                   "meaning": "results of the controller's actions; R<result of start>:<state>:<1 = start() returned>:<CPU ms the executing thread used after the actions>"}
+            f = io.split(";")
+            R = [x for x in f if x.startswith("R")]
+            if not R:
+                run.violation("all scripts asleep: the run did not reach the point where only sleeping scripts are left, or did not come back", rep); continue
+            res, st, stopped, cpu = [int(x) for x in R[0][1:].split(":")]
+            ctl = [x.split(":")[0] for x in f[:f.index(R[0])]]
+            k = min([i for i, c in enumerate(acts) if c in "ta"] + [len(acts)])
+            want = ["0" if c in "ta" else "1" for c in acts[:k + 1]]
+            if ctl[:k + 1] != want or any(x not in ("0", "1") for x in ctl[k + 1:]):
+                run.violation("controller actions beside an executor whose scripts all sleep returned %s, the state machine gives %s" % (ctl, want), rep)
+            elif not stopped:
+                run.violation("stop/abort was accepted (returned ok) while every script sleeps, but the executing thread kept spinning "
+                              "(%d ms of its own CPU time, state %d): the request does not take effect until a sleeper wakes" % (cpu, st), rep)
+            elif (res, st) != (0, 0) or f[-1] != "N-1:0":
+                run.violation("after an accepted stop/abort over sleeping scripts the run must end with ok / state empty and accept actions again", rep)
+        dist["concurrent: all scripts asleep"] = len(sl)
+
     if thorough and not replay:
         try:
             ht = V.build_harness("h_ctl", "tsan")
@@ -392,6 +425,8 @@ def main(replay=None):
                        "operand count and frame positions after every action vs CtlDefs.execute_ctl (repaired) and vs the state-machine table; "
                        "scripts spread over several files by #include (consecutive instructions with equal line numbers in different files; the model's line is the pair (file, line)): "
                        "line_step / assembly_step trees of depth 7 plus full-alphabet trees; "
+                       "concurrent, all scripts asleep: the main script has ended, every spawned script sleeps 30-50 s, stop / abort (alone and after refused actions) must end start() "
+                       "at once - measured in CPU time of the executing thread, so a loaded machine cannot make it flake; "
                        "concurrent: an executor thread inside execute(start) parked in the k-th call of an operator registered by the harness, "
                        "controller sequences of length <= 2, results vs the model with state = running and the run flag set, instructions executed "
                        "after an accepted stop/abort vs theorem stop_abort_bounded; distinct = (base, script, observation) / (park point, actions)")
